@@ -77,6 +77,15 @@ func apply(b *mocker.Builder, m *corpus.Method, how int, cb interface{}, ret []i
 		pkg = corpusb.PkgPath
 	}
 	switch {
+	case m.Tag >= 18000:
+		// a type of the calling package: no Pkg(...), the builder falls back to the package it was created in
+		um := b.ExportStruct(star + t.Name).Method(m.Name)
+		if cb != nil {
+			um.Apply(cb)
+			return "ExportStruct(current package).Method.Apply"
+		}
+		um.As(m.As).Return(ret...)
+		return "ExportStruct(current package).Method.As.Return"
 	case byName:
 		um := b.Pkg(pkg).ExportStruct(star + t.Name).Method(m.Name)
 		if cb != nil {
@@ -102,6 +111,72 @@ func apply(b *mocker.Builder, m *corpus.Method, how int, cb interface{}, ret []i
 		um.As(m.As).Return(ret...)
 		return "Struct.ExportMethod.As.Return"
 	}
+}
+
+
+// ---- a type of the harness' own package with the name of corpus.t08 / corpusb.t08: addressed WITHOUT Pkg(...) ----
+
+type t08 struct{ N int }
+
+var localRan [4]int64
+
+//go:noinline
+func (r *t08) Get(a0 int) int { localRan[0]++; return r.N*7 + a0 }
+
+//go:noinline
+func (r *t08) get() int { localRan[1]++; return r.N * 11 }
+
+var instLocal = [5]*t08{{1}, {2}, {3}, {4}, {5}}
+
+func lbox[T any](v T) reflect.Value {
+	p := new(T)
+	*p = v
+	return reflect.ValueOf(p).Elem()
+}
+
+func las[T any](v reflect.Value) T {
+	var z T
+	if v.IsValid() {
+		reflect.ValueOf(&z).Elem().Set(v)
+	}
+	return z
+}
+
+var localTypes []*corpus.TypeInfo
+
+func init() {
+	t := &corpus.TypeInfo{Name: "t08", Exported: false, PtrArg: &t08{}, ValArg: t08{}, Type: reflect.TypeOf(t08{}),
+		Instance: func(i int) interface{} { return instLocal[i%5] }}
+	ms := []*corpus.Method{
+		{Tag: 18020, Name: "Get", Ptr: true, Exported: true, Ran: &localRan[0],
+			Call: func(i int, a []reflect.Value) []reflect.Value { return []reflect.Value{lbox(instLocal[i%5].Get(las[int](a[0])))} },
+			MkRepl: func(rec *corpus.Rec) interface{} {
+				return func(r *t08, a0 int) int { rec.Calls++; rec.Args = []reflect.Value{lbox(r), lbox(a0)}; return las[int](rec.Res[0]) }
+			},
+			As: func(r *t08, a0 int) (r0 int) { vkit.Sink(31); return }},
+		{Tag: 18021, Name: "get", Ptr: true, Exported: false, Ran: &localRan[1],
+			Call: func(i int, a []reflect.Value) []reflect.Value { return []reflect.Value{lbox(instLocal[i%5].get())} },
+			MkRepl: func(rec *corpus.Rec) interface{} {
+				return func(r *t08) int { rec.Calls++; rec.Args = []reflect.Value{lbox(r)}; return las[int](rec.Res[0]) }
+			},
+			As: func(r *t08) (r0 int) { vkit.Sink(32); return }},
+	}
+	for _, m := range ms {
+		m.Type = t
+		m.FuncType = reflect.TypeOf(m.As)
+	}
+	t.Methods = ms
+	localTypes = append(localTypes, t)
+}
+
+// localTwin returns the type of the harness' own package that has the same name as t
+func localTwin(t *corpus.TypeInfo) *corpus.TypeInfo {
+	for _, x := range localTypes {
+		if x.Name == t.Name {
+			return x
+		}
+	}
+	return nil
 }
 
 // twin returns the type of package corpusb that has the same name as t
@@ -203,7 +278,15 @@ func runHist(ci interface{}, s *vkit.Stats) error {
 		}
 		ti := vkit.Pick(op.I[4], len(corpus.Types))
 		t := corpus.Types[ti]
-		switch vkit.Pick(op.I[0], 5) {
+		switch vkit.Pick(op.I[0], 6) {
+		case 5:
+			if tw := localTwin(t); tw != nil {
+				t = tw // the type of the same name in the harness' own package, addressed without Pkg(...)
+				s.Class("operation-on-same-named-type-of-the-current-package")
+			} else if tw := twin(t); tw != nil {
+				t = tw
+				s.Class("operation-on-same-named-type-of-another-package")
+			}
 		case 4:
 			ti = (ti + 1) % len(corpus.Types) // the distractor type
 			t = corpus.Types[ti]
@@ -264,6 +347,9 @@ func runHist(ci interface{}, s *vkit.Stats) error {
 			// every method of the type and of its neighbour type, on every instance: only what the model says is mocked may differ
 			sweep := []*corpus.TypeInfo{t, corpus.Types[(ti+1)%len(corpus.Types)]}
 			if tw := twin(corpus.Types[vkit.Pick(op.I[4], len(corpus.Types))]); tw != nil {
+				sweep = append(sweep, tw)
+			}
+			if tw := localTwin(corpus.Types[vkit.Pick(op.I[4], len(corpus.Types))]); tw != nil {
 				sweep = append(sweep, tw)
 			}
 			for _, tt := range sweep {
